@@ -374,7 +374,11 @@ func verifyFunc(prog *Program, fi *FuncInfo, fc *FuncContract, mode *ModeDef) (r
 	}
 	x.assert(final, "vacuity", "false must not be provable at exit", tFalse, nil, fi.Decl.End())
 	for _, l := range x.lockClasses() {
-		x.assertSafety(final, "lock", "lock balance: "+l+" is held at exit exactly if it was at entry", tEq(x.heldTerm(final, l), heldAtEntry[l]), fi.Decl.End())
+		h0, known := heldAtEntry[l]
+		if !known {
+			h0 = tFalse // a lock class first met in the body (unknown to the contracts): not held at entry
+		}
+		x.assertSafety(final, "lock", "lock balance: "+l+" is held at exit exactly if it was at entry", tEq(x.heldTerm(final, l), h0), fi.Decl.End())
 	}
 	return res
 }
